@@ -707,6 +707,17 @@ Lemma eval_mul_Q a b r p q : eval a r = VQ p -> eval b r = VQ q -> eval (EMul a 
 Proof. intros Ha Hb. cbn [eval]. rewrite Ha, Hb. reflexivity. Qed.
 Lemma eval_add_Q_int a b r p z : eval a r = VQ p -> eval b r = VInt z -> eval (EAdd a b) r = VQ (Qred (p + inject_Z z)).
 Proof. intros Ha Hb. cbn [eval]. rewrite Ha, Hb. reflexivity. Qed.
+Lemma eval_mul_rep a b r l n : eval a r = VList l -> eval b r = VInt n -> eval (EMul a b) r = VList (List.concat (repeat l (Z.to_nat n))).
+Proof. intros Ha Hb. cbn [eval]. rewrite Ha, Hb. reflexivity. Qed.
+Lemma eval_mul_int a b r x y : eval a r = VInt x -> eval b r = VInt y -> eval (EMul a b) r = VInt (x * y).
+Proof. intros Ha Hb. cbn [eval]. rewrite Ha, Hb. reflexivity. Qed.
+Lemma eval_add_list a b r x y : eval a r = VList x -> eval b r = VList y -> eval (EAdd a b) r = VList (x ++ y).
+Proof. intros Ha Hb. cbn [eval]. rewrite Ha, Hb. reflexivity. Qed.
+Lemma eval_listlit1 a r v : eval a r = v -> is_bad v = false -> eval (EListLit [a]) r = VList [v].
+Proof. intros <- H. cbn [eval]. destruct (eval a r); try discriminate H; reflexivity. Qed.
+Lemma eval_range a b r x y : eval a r = VInt x -> eval b r = VInt y ->
+  eval (ERange a b) r = VList (map (fun k => VInt (x + Z.of_nat k)) (seq 0 (Z.to_nat (y - x)))).
+Proof. intros Ha Hb. cbn [eval]. rewrite Ha, Hb. reflexivity. Qed.
 Lemma eval_call0 f r : eval (ECall f []) r = prim f []. Proof. reflexivity. Qed.
 Lemma eval_call1 f a r v : eval a r = v -> is_bad v = false -> eval (ECall f [a]) r = prim f [v].
 Proof. intros <- H. cbn [eval]. destruct (eval a r); try discriminate H; reflexivity. Qed.
@@ -926,6 +937,11 @@ Arguments exec_seq {prim wfuel}.
 Arguments exec_if {prim wfuel}.
 Arguments eval_var {prim}.
 Arguments eval_call0 {prim}.
+Arguments eval_mul_rep {prim}.
+Arguments eval_mul_int {prim}.
+Arguments eval_add_list {prim}.
+Arguments eval_listlit1 {prim}.
+Arguments eval_range {prim}.
 Arguments eval_add_Q_int {prim}.
 Arguments eval_mul_Q {prim}.
 Arguments eval_slice_str {prim}.
